@@ -383,6 +383,7 @@ func (p *ParamChurn) Act(e *Env) {
 // C02 — block execution is total and deterministic. The oracle itself (no halt, replicas agree) lives in the engine; this
 // monitor measures reach.
 type C02 struct {
+	guidanceLost bool
 	types      map[string]bool
 	failed     int
 	crossBlock int
@@ -390,10 +391,38 @@ type C02 struct {
 }
 
 func (m *C02) Prop() string { return "C02" }
+// pumpShadows advances the shared reference models, which in this profile no monitor judges: the actors read them to aim
+// their inputs (voting power left, tunnel thresholds, queue lengths). The adversarial generator can drive the chain into
+// states those models do not cover; guidance is then simply dropped for the rest of the run.
+func (m *C02) pumpShadows(e *Env, blk *world.BlockRecord) {
+	if m.guidanceLost {
+		return
+	}
+	defer func() {
+		if r := recover(); r != nil {
+			m.guidanceLost = true
+			e.St.Probe("c02_actor_guidance_models_dropped")
+		}
+	}()
+	if x, ok := e.Shared["stake.shadow"].(*StakeShadow); ok {
+		x.Advance(e, blk)
+	}
+	if x, ok := e.Shared["feeds.shadow"].(*FeedsShadow); ok {
+		x.Advance(e, blk)
+	}
+	if x, ok := e.Shared["tss.shadow"].(*TSSShadow); ok {
+		x.Advance(e, blk)
+	}
+	if x, ok := e.Shared["tunnel.shadow"].(*TunnelShadow); ok {
+		x.Advance(e, blk)
+	}
+}
+
 func (m *C02) OnBlock(e *Env, blk *world.BlockRecord) {
 	if m.types == nil {
 		m.types = map[string]bool{}
 	}
+	m.pumpShadows(e, blk)
 	m.blocks++
 	for _, tx := range blk.Txs {
 		for _, msg := range tx.Intent.Msgs {
